@@ -501,6 +501,16 @@ func (bb *TwoDBoundingBox) UnmarshalJSON(data []byte) error {
 // A 2D Point in the CRS indicated elsewhere
 type TwoDPoint [2]float64
 
+// UnmarshalJSON checks the number of ordinates (see UnmarshalJSONFromMap), for points that are decoded
+// from JSON text (the corners of a bounding box)
+func (p *TwoDPoint) UnmarshalJSON(data []byte) error {
+	var ordinates []interface{}
+	if err := json.Unmarshal(data, &ordinates); err != nil {
+		return err
+	}
+	return p.UnmarshalJSONFromMap(ordinates)
+}
+
 // UnmarshalJSONFromMap checks the number of ordinates (a JSON array with more than 2 elements would
 // otherwise be written past the end of the array)
 func (p *TwoDPoint) UnmarshalJSONFromMap(data interface{}) error {
